@@ -150,4 +150,70 @@ def jobs(tier):
         for opr in operators:
             js.append(dict(name=f'H9b:one_amplifier:{mode}_mode:operator={"+".join(opr) or "none"}', fn='h_one_amplifier',
                            params=dict(mode=mode, operator=opr), cost=30))
+    for mode in ('power', 'gain'):
+        js.append(dict(name=f'H9c:oms_telescoping:{mode}_mode', fn='h_oms_telescoping', params=dict(mode=mode), cost=100,
+                       budget_s=200 if tier == 'quick' else 600))
     return js
+
+
+def h_oms_telescoping(ctx, mode):
+    """set_egress_amplifier over a two-span OMS (booster, in-line amplifier, preamp; types imposed) with symbolic span losses:
+    at every amplifier gain = loss since the previous amplifier + change of target (+ VOAs), so the reference channel leaves it
+    at reference power + its offset; offsets follow the documented rule (0 before the ROADM)"""
+    from gnpy.core.network import (set_egress_amplifier, set_roadm_ref_carrier, set_roadm_per_degree_targets,
+                                   set_per_degree_design_band, add_missing_fiber_attributes)
+    from gnpy.topology.request import PathRequest
+    eqpt = deepcopy(equipment())
+    span = eqpt['Span']['default']
+    span.power_mode = (mode == 'power')
+    els, cx = [], []
+    for s in 'AB':
+        els += [{'uid': f'trx {s}', 'type': 'Transceiver'}, {'uid': f'roadm {s}', 'type': 'Roadm'}]
+        cx += [{'from_node': f'trx {s}', 'to_node': f'roadm {s}'}, {'from_node': f'roadm {s}', 'to_node': f'trx {s}'}]
+    fib = lambda u: {'uid': u, 'type': 'Fiber', 'type_variety': 'SSMF',       # noqa
+                     'params': {'length': 80, 'length_units': 'km', 'loss_coef': 0.2, 'con_in': 0.5, 'con_out': 0.5, 'att_in': 0}}
+    amp = lambda u: {'uid': u, 'type': 'Edfa', 'type_variety': 'std_medium_gain', 'operational': {}}      # noqa
+    els += [amp('booster'), fib('fiber1'), amp('ila'), fib('fiber2'), amp('preamp')]
+    names = ['roadm A', 'booster', 'fiber1', 'ila', 'fiber2', 'preamp', 'roadm B']
+    cx += [{'from_node': a, 'to_node': b} for a, b in zip(names[:-1], names[1:])]
+    g, by = build_elements(els, eqpt, connections=cx)
+    loss1 = ctx.real('span1_loss_db', lo=5, hi=35)
+    loss2 = ctx.real('span2_loss_db', lo=5, hi=35)
+    by['fiber1'].design_span_loss, by['fiber2'].design_span_loss = loss1, loss2
+    p_max = ctx.real('amp_p_max_dbm', lo=15, hi=30)
+    eqpt['Edfa']['std_medium_gain'].p_max = p_max
+    for u in ('booster', 'ila', 'preamp'):
+        by[u].params.p_max = p_max
+    ref = PathRequest(request_id='ref', source='trx A', destination='trx B', bidir=False, trx_type='', trx_mode='', nodes_list=[],
+                      loose_list=[], format='', path_bandwidth=0, effective_freq_slot=None, nb_channel=40, power=1e-3, tx_power=1e-3,
+                      baud_rate=32e9, spacing=50e9, f_min=191.3e12, f_max=196.1e12, roll_off=0.15, tx_osnr=40, OSNR=11, bit_rate=100e9,
+                      min_spacing=37.5e9, cost=1, penalties={}, equalization_offset_db=0)
+    roadm = by['roadm A']
+    for r in (by['roadm A'], by['roadm B']):
+        set_roadm_ref_carrier(r, eqpt)
+        set_roadm_per_degree_targets(r, g)
+        set_per_degree_design_band(r, g, eqpt)
+    pref_ch = 0.0
+    set_egress_amplifier(g, roadm, eqpt, pref_ch, False, ref)
+    nch_db = 10 * __import__('math').log10(40)
+    out_roadm = roadm.get_per_degree_ref_power(degree='booster')         # dBm of the reference channel out of the ROADM
+    prev_dp, prev_voa = out_roadm - pref_ch, 0
+    chain = [('booster', 0.0, 'fiber'), ('ila', loss1, 'fiber'), ('preamp', loss2, 'roadm')]
+    for uid, loss, nxt in chain:
+        a = by[uid]
+        info = dict(mode=mode, amp=uid)
+        if mode == 'power':
+            ctx.prove(f'{uid}: gain = loss since previous amplifier + change of target + previous VOA',
+                      eq(a.effective_gain, loss + a.delta_p - prev_dp + prev_voa), info=info)
+            ctx.prove(f'{uid}: total design power within p_max', le(pref_ch + nch_db + a.delta_p, p_max + 1e-9), info=info)
+            if nxt == 'roadm':
+                ctx.prove(f'{uid}: offset before a ROADM is 0 unless reduced for p_max',
+                          Or(eq(a.delta_p, a.out_voa), eq(pref_ch + nch_db + a.delta_p, p_max)), info=info)
+            # reference channel leaves the amplifier (before its VOA) at reference power + offset
+            p_ref_out = pref_ch + prev_dp - prev_voa - loss + a.effective_gain
+            ctx.prove(f'{uid}: reference channel leaves at reference power + offset', eq(p_ref_out, pref_ch + a.delta_p), info=info)
+            prev_dp = a.delta_p
+        else:
+            ctx.prove(f'{uid}: gain mode records no offset', a.delta_p is None, info=info)
+            prev_dp = prev_dp - loss - prev_voa + a.effective_gain
+        prev_voa = a.out_voa
